@@ -25,7 +25,8 @@ CHECKS = {
  "C04": ("Coq theorems C04_primary / C04_canonical / C04_bundle_layout / C04_fresh_passes: for every prior CRC state the stored and emitted CRC is "
          "be(crc16_x25 | crc32c) of the block serialized with a zero-filled CRC field, type 0 has no field, fresh encodings pass the check; CRC definition "
          "= bitwise reflected register with catalogue parameters regenerated from src/crc.rs + crc-catalog (check values re-verified by the kernel); crc "
-         "crate tied by the K-crc channel.", "as C01; crate `crc` table implementation tied by differential testing only.", "DESIGN.md section 6 C04"),
+         "crate tied by the K-crc channel and, exhaustively, by C04_tie_crc_single_bytes (the compiled crate's two checksum functions on every one-byte message - which "
+         "exercises every entry of a 256-entry lookup table - equal the bitwise definitions; table regenerated from /repo on every run).", "as C01; crate `crc` table implementation tied by differential testing and the one-byte table.", "DESIGN.md section 6 C04"),
  "C05": ("Coq theorems C05_no_silent_corruption_partial / C05_single_bit / C05_crc_value_change (pipeline: emitted bundle of the C01 domain with "
          "CRC-16/CRC-32C on all blocks, one block corrupted, decoder, alarm condition 're-encodes with stored CRCs to the received bytes in the same "
          "block byte ranges' => crc_valid = false) for the three classes: one flipped bit anywhere in the block (no premise on the decoded CRC type: "
